@@ -160,7 +160,7 @@ func rulePanosXPathScope(p *Prog, r *Report) {
 
 func checkC07(p *Prog, r *Report) {
 	ruleExitsAudited(p, r, "R-X", "C07", map[string]bool{"cisco": true, "asa": true, "ios": true}, 16)
-	ruleMemo(p, r, "R-MEMO", "C07", map[string]bool{"cisco": true, "asa": true, "ios": true}, 7)
+	ruleMemo(p, r, "R-MEMO", "C07", map[string]bool{"cisco": true, "asa": true, "ios": true}, 6)
 	ruleRegexpConsts(p, r, "R-RX", "C07", 1)
 	ruleNSXLoadFilter(p, r)
 	rulePanosXPathScope(p, r)
